@@ -2,14 +2,14 @@ SPECIFICATION Spec
 CONSTANTS
   Reqs = {"r1", "r2"}
   QCap = 1
-  FixHandoff = FALSE
-  FixSend = FALSE
-  FixReader = FALSE
-  Banned = {}
-  FixFlushOnStop = TRUE
+  FixHandoff = TRUE
+  FixSend = TRUE
+  FixReader = TRUE
+  Banned = {"r2"}
+  FixFlushOnStop = FALSE
   MaxResets = 1
   WithStop = TRUE
   Det = FALSE
 INVARIANTS TypeOK AtMostOnce NoLostRequest NoStuckSender PairingFIFO
-PROPERTIES QuitLeadsToDone
+PROPERTIES Answered QuitLeadsToDone StopReturns
 CHECK_DEADLOCK FALSE
